@@ -269,6 +269,7 @@ var d8entries = []d8entry{
 	{"", "Signature.Export", "exportGen", true, "", "", "", "", ""},
 	{"", "Sign", "signGen", false, "Unit", "", "", "", ""},
 	{"", "GeneratePrivateKeyFromRand", "generatePrivateKeyFromRand", false, "IoErr", "", "", "", ""},
+	{"", "RecoverCompact", "recoverCompact", false, "SigErr", "", "", "", ""},
 }
 
 type d8 struct {
@@ -2196,6 +2197,40 @@ func (d *d8) fallibleAssign(st *ast.AssignStmt, next func() *dnode) *dnode {
 		d.restore(e1, kn1, sc1, st1)
 		pre = append(pre, &dnode{kind: "let", name: "(" + names[0] + ", " + names[1] + ", " + okv + ")", term: "hmacCKD O " + seed.term + " " + salt.term})
 		return chain(pre, &dnode{kind: "if", term: "(!" + okv + ")", a: bad, b: good})
+	}
+	if fn.Name() == "ParseCompactSignature" && len(st.Lhs) == 3 && d.ent.errT == "SigErr" {
+		// sig, wasCompressed, err := ParseCompactSignature(b): the model's parser (= the regenerated one: C07
+		// parseCompact_regenerated); its error carries the flag as well
+		b := d.expr(call.Args[0], &pre)
+		sigId, flagId, errId := st.Lhs[0].(*ast.Ident), st.Lhs[1].(*ast.Ident), st.Lhs[2].(*ast.Ident)
+		eo := d.p.info.Defs[errId]
+		if eo == nil {
+			eo = d.p.info.Uses[errId]
+		}
+		e0, kn0, sc0, st0 := d.snapshot()
+		d.env[eo] = &dloc{root: "?err", kind: "err"}
+		d.known[eo] = true
+		d.errTerm[eo] = "pce"
+		fn0 := d.fresh(flagId.Name)
+		d.declare(fn0, "bool")
+		d.env[d.p.info.Defs[flagId]] = &dloc{root: fn0, kind: "bool"}
+		bad := next()
+		d.restore(e0, kn0, sc0, st0)
+		delete(d.errTerm, eo)
+		e1, kn1, sc1, st1 := d.snapshot()
+		d.env[eo] = &dloc{root: "?err", kind: "err"}
+		d.known[eo] = false
+		sn := d.fresh(sigId.Name)
+		d.declare(sn, "sig")
+		d.env[d.p.info.Defs[sigId]] = &dloc{root: sn, kind: "sig"}
+		fn1 := d.fresh(flagId.Name)
+		d.declare(fn1, "bool")
+		d.env[d.p.info.Defs[flagId]] = &dloc{root: fn1, kind: "bool"}
+		good := next()
+		d.restore(e1, kn1, sc1, st1)
+		goodN := &dnode{kind: "let", name: sn, term: "(pr, ps, pc)", a: good}
+		return chain(pre, &dnode{kind: "match", term: "parseCompactM " + b.term, arms: []darm{
+			{".error (pce, " + fn0 + ")", bad}, {".ok (pr, ps, pc, " + fn1 + ")", goodN}}})
 	}
 	if fn.Name() == "ParsePubKey" && fn.Pkg().Name() == "secp256k1" && len(st.Lhs) == 2 && d.ent.errT == "BipErr" {
 		// key, err := secp256k1.ParsePubKey(b): the model's parser (= the regenerated one: C08 parsePubKey_regenerated)
